@@ -74,3 +74,175 @@ Theorem C03_cost_example :
   Forall small ns /\ ideal_cost ns = 782 /\ c_cost ns = 782 /\ rust_cost ns = Ok 782.
 Proof. exact cost_example. Qed.
 Print Assumptions C03_cost_example.
+
+(* ================================================================== phase 2: the whole property about a reference
+   Cdiff/Reference.v assembles an executable reference for everything C03 names from the reference components of
+   the sibling families (Codec's decoder model over the real Elements jet code, Infer's `infer` with root 1 -> 1,
+   Ty.of_compact witness filling, Merkle's CMR / IHR / AMR over SHA-256, the cost reference above).  The theorems
+   below are about that reference; Rust and libsimplicity are each compared with it on the same byte pairs by
+   tools/props/c03.py (three-way).  Still no theorem mentions the C or the Rust code. *)
+From RS Require Import Lib.Bits Lib.Sweep Bits.Natural Bits.BitIter Jets.JetTable Jets.TypeName Generated.Jets_elements
+  Codec.NodeCodec Codec.Linearise Codec.Decode Codec.WitnessCodec Codec.RealJets
+  Infer.Constraints Infer.Infer Merkle.Sha256 Merkle.Cmr Merkle.Ihr Merkle.Real
+  Cdiff.Reference Cdiff.ReferenceProofs.
+
+(* 6. whatever the reference accepts is the canonical encoding of the table it decoded: the program bits are the
+      encoder's bits of that table followed by the (closed: fewer than 8, all zero) padding, the table is in
+      canonical order (its pointer post-order is 0, 1, .., len-1), passes the structural rules (hidden nodes only
+      under case, no repeated hidden root) and has no one-child disconnect *)
+Theorem C03_ref_accept_canonical : forall pb wb a, reference pb wb = VAccept a ->
+  exists rest,
+    bits_of_bytes pb = enc_prog N elements_enc (a_nodes a) ++ rest /\
+    wf_prog N elements_okb (a_nodes a) /\
+    order_of (a_nodes a) key_ptr = upto (length (a_nodes a)) /\
+    dec_struct (a_nodes a) = Ok tt /\
+    close_after pb (consumed (bits_of_bytes pb) rest) = Ok tt /\
+    (forall d, In d (a_nodes a) -> is_disc1 d = false).
+Proof. exact ref_accept_canonical. Qed.
+Print Assumptions C03_ref_accept_canonical.
+
+(* 7. ... is well typed with root 1 -> 1 (every node satisfies the typing rule of its combinator, jets at the types
+      of the regenerated Elements table), and the arrows are the principal ones (below every other typing) *)
+Theorem C03_ref_accept_typed : forall pb wb a, reference pb wb = VAccept a ->
+  check_typing elements_jt (root_of (a_nodes a)) (prog_of (a_nodes a)) (a_tau a) = true /\
+  (forall tau, check_typing elements_jt (root_of (a_nodes a)) (prog_of (a_nodes a)) tau = true ->
+               typing_le (a_tau a) tau = true).
+Proof. exact ref_accept_typed. Qed.
+Print Assumptions C03_ref_accept_typed.
+
+Theorem C03_elements_jt_types : forall r, In r (f_rows elements_family) ->
+  exists gs gt, jet_lookup elements_jt 1 (j_idx r) = Some (gs, gt) /\
+    tn_to_final (j_src r) = Ok (gty_ty gs) /\ tn_to_final (j_tgt r) = Ok (gty_ty gt).
+Proof. exact elements_jt_types. Qed.
+Print Assumptions C03_elements_jt_types.
+
+(* 8. ... its witness stream is exactly the concatenated compact encodings of values of the inferred target types
+      of the witness nodes (in table order) followed by closed padding; no witness is wider than CELLS_MAX *)
+Theorem C03_ref_accept_witness : forall pb wb a, reference pb wb = VAccept a ->
+  exists vs wrest,
+    bits_of_bytes wb = enc_witnesses vs ++ wrest /\
+    all_typed vs (wit_tys (prog_of (a_nodes a)) (a_tau a)) = true /\
+    close_after wb (consumed (bits_of_bytes wb) wrest) = Ok tt /\
+    a_table a = fill (prog_of (a_nodes a)) (a_tau a) vs /\
+    Forall (fun t => Ty.width t <= CELLS_MAX) (wit_tys (prog_of (a_nodes a)) (a_tau a)).
+Proof. exact ref_accept_witness. Qed.
+Print Assumptions C03_ref_accept_witness.
+
+(* 9. ... its commitment root is the root hashed from scratch with SHA-256 from the committed structure of the
+      decoded table (Merkle's cmr_spec: no witness value, no disconnected branch, no type enters); the annotated
+      and identity roots are the ones Merkle.Ihr.redeem_table computes for the typed, witness-filled table, and all
+      identity hashes (hidden roots included) are pairwise different *)
+Theorem C03_ref_accept_roots : forall pb wb a, reference pb wb = VAccept a ->
+  a_cmr a = bytes_of_state (r_cmr_spec (last (r_erase (prog_of (a_nodes a))) Cmr.CUnit)) /\
+  exists rt, ref_redeem (a_table a) = Ok rt /\
+    a_amr a = root_amr rt /\ a_ihr a = root_ihr rt /\ nodup_bytes (map ih_bytes rt) = true.
+Proof. exact ref_accept_roots. Qed.
+Print Assumptions C03_ref_accept_roots.
+
+(* 10. ... and its cost is the cost reference of the first part: the C-shaped value is the ideal bound clipped at
+       2^32-1, and the Rust-shaped value equals it whenever all type widths are below 2^32 *)
+Theorem C03_ref_accept_cost : forall pb wb a, reference pb wb = VAccept a ->
+  exists ns, annotate elements_cost (a_table a) = Some ns /\
+    k_ideal (a_costs a) = ideal_cost ns /\
+    k_c (a_costs a) = N.min (ideal_cost ns) CostRef.u32_max /\
+    k_rust (a_costs a) = rust_cost ns /\
+    (Forall small ns -> k_rust (a_costs a) = Ok (k_c (a_costs a))).
+Proof. exact ref_accept_cost. Qed.
+Print Assumptions C03_ref_accept_cost.
+
+(* 11. the reference rejects only with the classes the comparison uses: program end of stream (1), trailing bytes /
+       padding (2), value out of range (3), not canonical order (4), one-child disconnect (6), hidden node
+       misplaced (7), type error (8), witness stream (9), sharing not maximal (10), witness wider than CELLS_MAX
+       (11).  A fail node is never a reason (class 5 is libsimplicity's designed exception): the reference accepts
+       such programs and reports the fact in a_has_fail *)
+Theorem C03_ref_reject_classes : forall pb wb c, reference pb wb = VReject c ->
+  In c [1; 2; 3; 4; 6; 7; 8; 9; 10; 11].
+Proof. exact ref_reject_classes. Qed.
+Print Assumptions C03_ref_reject_classes.
+
+Theorem C03_ref_never_fail_class : forall pb wb, reference pb wb <> VReject 5.
+Proof. exact ref_never_fail_class. Qed.
+Print Assumptions C03_ref_never_fail_class.
+
+(* 12. the type-error class is exact: a decodable program is rejected with class 8 precisely when NO assignment of
+       arrows satisfies the typing rules with root 1 -> 1 (completeness of the reference inference) *)
+Theorem C03_ref_reject_type_iff : forall pb wb ns, decodes_to pb ns ->
+  (reference pb wb = VReject 8 <->
+   forall tau, check_typing elements_jt (root_of ns) (prog_of ns) tau = false).
+Proof. exact ref_reject_type_iff. Qed.
+Print Assumptions C03_ref_reject_type_iff.
+
+(* the syntactic / structural classes are those of the decoder model of C02 *)
+Theorem C03_ref_reject_syntax : forall pb wb e,
+  dec_prog N elements_dec (bits_of_bytes pb) = Err e -> reference pb wb = VReject (class_of_dec_err e).
+Proof. exact ref_reject_syntax. Qed.
+Print Assumptions C03_ref_reject_syntax.
+
+Theorem C03_ref_reject_structure : forall pb wb ns rest e,
+  dec_prog N elements_dec (bits_of_bytes pb) = Ok (ns, rest) -> dec_struct ns = Err e ->
+  reference pb wb = VReject (class_of_dec_err e).
+Proof. exact ref_reject_structure. Qed.
+Print Assumptions C03_ref_reject_structure.
+
+(* 13. the reference is total up to the roots: no stage before them panics or runs out of fuel; the only internal
+       error it can report is "a root / cost function failed on a decoded, typed, witness-filled table" (code 6) *)
+Theorem C03_ref_internal_only_roots : forall pb wb c, reference pb wb = VInternal c -> c = 6.
+Proof. exact ref_internal_only_roots. Qed.
+Print Assumptions C03_ref_internal_only_roots.
+
+(* non-vacuity: accepted and rejected inputs (computed with the real SHA-256 and jet tables) *)
+Theorem C03_ref_examples :
+  match reference [36] [] with
+  | VAccept a => a_nodes a = [DUnit] /\ a_tau a = [Some (Ty.One, Ty.One)] /\ k_c (a_costs a) = 100 /\ a_has_fail a = false
+  | _ => False
+  end /\
+  reference [] [] = VReject 1 /\ reference [36; 0] [] = VReject 2 /\
+  reference [0xc1; 0x28; 0x30; 0x14] [] = VReject 8 /\ reference [36] [0] = VReject 9.
+Proof. exact (conj ref_accepts_unit ref_rejects_examples). Qed.
+Print Assumptions C03_ref_examples.
+
+(* 14. the witness hash inside AMR / IHR (merkle/mod.rs compact_value as modelled by Merkle.Real.r_compact_value) is
+       SHA-256 with the FIPS 180-4 padding: the model hashes [cv_message bits], whose length is, for EVERY bit string,
+       the least multiple of 512 bits that holds the bits, the delimiter bit and the 64-bit length ... *)
+From RS Require Import Cdiff.CompactValue.
+
+Theorem C03_compact_value_message : forall bits, r_compact_value bits = sha_absorb sha_iv0 (cv_message bits).
+Proof. exact compact_value_message. Qed.
+Print Assumptions C03_compact_value_message.
+
+Theorem C03_compact_value_padding_minimal : forall bits,
+  N.of_nat (length (cv_message bits)) = 64 * ((N.of_nat (length bits) + 65 + 511) / 512).
+Proof. exact cv_message_length. Qed.
+Print Assumptions C03_compact_value_padding_minimal.
+
+(* ... the test `bytes.len() % 64 > 56` is the exact threshold: `>= 56` differs precisely for bit lengths
+   440..447 mod 512, where it appends a whole extra block (64 zero bytes instead of none) ... *)
+Theorem C03_compact_value_threshold_exact :
+  (forall len, len mod 64 <> 56 -> cv_zeros true len = cv_zeros false len) /\
+  (forall len, len mod 64 = 56 -> cv_zeros true len = 0 /\ cv_zeros false len = 64) /\
+  (forall n, 440 <= n mod 512 <= 447 <-> (n / 8 + 1) mod 64 = 56).
+Proof. exact cv_threshold_exact. Qed.
+Print Assumptions C03_compact_value_threshold_exact.
+
+(* ... and for byte-aligned values the result is the SHA-256 of the bytes (Merkle.Sha256.sha256) *)
+Theorem C03_compact_value_sha256 : forall bs, Forall (fun b => b < 256) bs ->
+  bytes_of_state (r_compact_value (bits_of_bytes bs)) = sha256 bs.
+Proof. exact compact_value_is_sha256. Qed.
+Print Assumptions C03_compact_value_sha256.
+
+(* 15. one program, one encoding: the program bytes the reference accepts are the bit writer's output for the encoder's
+       bits of the table it decoded (Codec's reencode_bytes with the real Elements jet code; a clean close leaves fewer than
+       8 unread bits, all zero), so two accepted byte strings that decode to the same table are equal *)
+From RS Require Import Bits.BitWriter Cdiff.Canonical.
+
+Theorem C03_ref_accept_reencodes : forall pb wb a, bytes_ok pb -> reference pb wb = VAccept a ->
+  bw_out (bw_flush_all (bw_write_bits bw_new (enc_prog N elements_enc (linearise (a_nodes a) key_ptr)))) = pb.
+Proof. exact ref_accept_reencodes. Qed.
+Print Assumptions C03_ref_accept_reencodes.
+
+Theorem C03_ref_accept_unique_encoding : forall pb wb a pb' wb' a',
+  bytes_ok pb -> bytes_ok pb' ->
+  reference pb wb = VAccept a -> reference pb' wb' = VAccept a' ->
+  a_nodes a = a_nodes a' -> pb = pb'.
+Proof. exact ref_accept_unique_encoding. Qed.
+Print Assumptions C03_ref_accept_unique_encoding.
